@@ -22,7 +22,7 @@ RULE = ('one evaluation = one seeded simulated run of 2-4 contenders (threads sh
         'acquire; distinct = SHA-256 of the seam event log')
 ASSUMPTIONS = ['polling acquire loops (1 ms virtual sleeps) are run with critical sections of at most a few virtual milliseconds',
                'lock keys carry no expiry in this check']
-PROBES = ('contended_acquire', 'nested_rlock', 'bad_release_refused', 'lock_wait', 'barrier_calls', 'with_statement', 'cs_raised', 'barrier_mixed_with_primitive', 'fresh_handles', 'json_disk')
+PROBES = ('contended_acquire', 'nested_rlock', 'bad_release_refused', 'lock_wait', 'barrier_calls', 'with_statement', 'cs_raised', 'barrier_mixed_with_primitive', 'fresh_handles', 'json_disk', 'long_section')
 TECHNIQUE = 'deterministic simulation: seeded schedules of contenders with virtual-time polling; holder-count witness invariant checked at every critical-section entry; bounded-progress check'
 LEVEL_TEXT = ('seeded exploration of contender interleavings at seam granularity (and source lines for shared objects) with a witness '
               'invariant (holders <= 1, <= value for the semaphore, re-entrancy only by the owner) evaluated during the run, plus '
@@ -53,6 +53,17 @@ def gen_case(seed, tier):
     # barrier: contenders call two DIFFERENT functions wrapped under one barrier name, and (in some runs) the last contender
     # uses the primitive itself on that name - all of them are one exclusion group
     cfg['barrier_mix'] = rng.random() < 0.4
+    if rng.random() < 0.04 and kind in ('lock', 'rlock', 'sem'):
+        # one very long critical section on a machine that oversleeps (every sleep takes at least 50 ms): the waiters poll a
+        # couple of thousand times and still get their turn
+        cfg['oversleep'] = 0.05
+        cfg['long_section'] = rng.choice((105.0, 120.0))
+        cfg['n'], cfg['iters'], cfg['nest'], cfg['forked'] = 2, 1, 1, False
+        cfg['think'] = [0.0, 0.5]
+        cfg['clock'] = {'mode': 'frozen'}
+        cfg['line_p'] = 0.0
+        if kind == 'sem':
+            cfg['value'] = 1
     cfg['json_disk'] = rng.random() < 0.2      # the primitives keep their state as cache values: any Disk must do
     # 'handles': every acquire and every release goes through a fresh Lock / RLock / BoundedSemaphore object on the same key -
     # the state lives in the cache, the objects are interchangeable handles that may be dropped at any time
@@ -74,6 +85,7 @@ def run_case(case):
     world = World(case['seed'], sched=cfg['sched'], clock=cfg['clock'], step_cap=120000, line_p=cfg['line_p'],
                   yield_clock=cfg['yield_clock'], post_stmt_yield=cfg['post_stmt_yield'])
     sim = world.sim
+    sim.min_sleep = cfg.get('oversleep', 0.0)
     incident = None
     try:
         dc = world.dc
@@ -113,6 +125,9 @@ def run_case(case):
             before = sim.switches
             for _ in range(cfg['cs_yields']):
                 sim.seam('cs', name)
+            if cfg.get('long_section') and name == 'c0':
+                sim.sleep(cfg['long_section'])
+                probes['long_section'] = 1
             if cfg['cs_sleep']:
                 sim.sleep(cfg['cs_sleep'])
             if sim.switches != before:
